@@ -716,8 +716,14 @@ class Differ:
             else:
                 self._diff_scalars(path, lhs, rhs, **kwargs)
         else:
+            recorded = len(self._diffs)
             self._purge_document(path, lhs)
             self._add_everything(path, rhs)
+            if len(self._diffs) == recorded:
+                # Neither side has any content to delete or add (empty
+                # containers, null), yet the two nodes are of different kinds
+                self._diffs.append(
+                    DiffEntry(DiffActions.CHANGE, path, lhs, rhs, **kwargs))
 
     @classmethod
     def synchronize_lists_by_value(
